@@ -152,7 +152,7 @@ def _kill_group(p):
 def run_server(mode, wd, v, pre=False, rnd=None):
     """One complete LSP session against the real binary under strace.  pre: the dictionaries and the
     statistics file exist beforehand, in states a user or another tool may have left them in."""
-    home = os.path.join(wd, f"home_{mode}" + ("_pre" if pre else "") + (f"_r{rnd[0]}" if rnd else ""))
+    home = os.path.join(wd, f"home_{mode}" + ("_blocked" if pre == "blocked" else "_pre" if pre else "") + (f"_r{rnd[0]}" if rnd else ""))
     docs = os.path.join(home, "docs")
     os.makedirs(docs, exist_ok=True)
     pol = {"userDict": os.path.join(home, "cfg", "harper-ls", "my_dict.txt"),
@@ -161,7 +161,16 @@ def run_server(mode, wd, v, pre=False, rnd=None):
     pol["fileDictNames"] = {lspclient.flat_name("file://" + os.path.join(docs, name)) for name, _, _ in TEXTS}
     if rnd:
         pol["fileDictPrefix"] = "".join(seg + "%" for seg in docs.split("/") if seg)
-    if pre:
+    if pre == "blocked":
+        # the configured locations cannot be used: a directory sits where the statistics file should be, a file
+        # where the file-dictionary directory should be, and the user dictionary's directory is a file.  Nothing can
+        # be saved - and nothing may be written anywhere else instead.
+        os.makedirs(pol["stats"], exist_ok=True)
+        os.makedirs(os.path.dirname(pol["fileDictDir"]), exist_ok=True)
+        open(pol["fileDictDir"], "w").close()
+        os.makedirs(os.path.dirname(os.path.dirname(pol["userDict"])), exist_ok=True)
+        open(os.path.dirname(pol["userDict"]), "w").close()
+    elif pre:
         os.makedirs(os.path.dirname(pol["userDict"]), exist_ok=True)
         os.makedirs(pol["fileDictDir"], exist_ok=True)
         os.makedirs(os.path.dirname(pol["stats"]), exist_ok=True)
@@ -237,7 +246,7 @@ def run_server(mode, wd, v, pre=False, rnd=None):
     if not ok:
         # a request timed out or the pipe broke: nothing can be concluded from a half-played session
         raise common.ToolError(f"the {mode} session with harper-ls did not run to its end")
-    persisted = True if rnd else {"userDict", "fileDict", "stats"} <= wrote     # random sessions need not touch every file
+    persisted = True if (rnd or pre == "blocked") else {"userDict", "fileDict", "stats"} <= wrote     # random sessions need not touch every file
     return ([{"ev": "Proc", "mode": mode}] + evs + [{"ev": "SessionOk", "ok": persisted, "wrote": sorted(wrote)}]), raw
 
 
@@ -317,10 +326,10 @@ def run(v):
              "library mode: every emitted effect is in the allowed alphabet")
     _, corp = corpus.harvest()
     evs, raws = [], {}
-    for mode, pre in (("stdio", False), ("tcp", False), ("stdio", True)):
+    for mode, pre in (("stdio", False), ("tcp", False), ("stdio", True), ("stdio", "blocked")):
         e, raw = run_server(mode, wd, v, pre)
         evs += e
-        raws[mode + ("_pre" if pre else "")] = raw
+        raws[mode + ("_blocked" if pre == "blocked" else "_pre" if pre else "")] = raw
     e, raw = run_tcp_busy(wd)
     evs += e
     raws["tcp_busy"] = raw
